@@ -479,7 +479,8 @@ func runC11(c *core.Ctx) {
 	}
 	ec := samlgen.Key("spec256").Key
 	keyArgs := []keyArg{{"nil", nil}, {"bytes0", []byte{}}, {"bytes8", detKey(8, "k")}, {"bytes16", detKey(16, "k")}, {"bytes24", detKey(24, "k")}, {"bytes32", detKey(32, "k")}, {"bytes33", detKey(33, "k")},
-		{"rsa-matching", priv}, {"rsa-other", other.Key.(*rsa.PrivateKey)}, {"rsa-by-value", *priv}, {"rsa-nil-ptr", (*rsa.PrivateKey)(nil)}, {"ecdsa", ec}, {"string", "secret"}, {"int", 42}, {"cert", sp.Cert}}
+		{"rsa-matching", priv}, {"rsa-matching-without-primes", &rsa.PrivateKey{PublicKey: priv.PublicKey, D: priv.D}}, {"rsa-matching-one-prime-listed", &rsa.PrivateKey{PublicKey: priv.PublicKey, D: priv.D, Primes: priv.Primes[:1]}},
+		{"rsa-zero-value", &rsa.PrivateKey{}}, {"rsa-public-part-only", &rsa.PrivateKey{PublicKey: priv.PublicKey}}, {"rsa-other", other.Key.(*rsa.PrivateKey)}, {"rsa-by-value", *priv}, {"rsa-nil-ptr", (*rsa.PrivateKey)(nil)}, {"ecdsa", ec}, {"string", "secret"}, {"int", 42}, {"cert", sp.Cert}}
 	for _, a := range algs {
 		for _, shape := range []string{"direct", "wrapped", "encryptedkey"} {
 			for _, ka := range keyArgs {
@@ -505,6 +506,20 @@ func runC11(c *core.Ctx) {
 						return
 					}
 					right := (shape == "direct" && ka.name == fmt.Sprintf("bytes%d", a.libKey)) || (shape != "direct" && ka.name == "rsa-matching")
+					if strings.HasPrefix(ka.name, "rsa-matching-") && shape != "direct" {
+						// the right key in a form without CRT values (crypto/rsa decrypts from N, E, D alone): plaintext or an error, no panic
+						t.Modelled(core.DontCare)
+						if err == nil {
+							want := pt0
+							if shape == "encryptedkey" {
+								want = cek
+							}
+							if !bytes.Equal(pt, want) {
+								t.Fail("C11/keytype/"+shape+"/wrong-plaintext", "key %s: no error but another plaintext", ka.name)
+							}
+						}
+						return
+					}
 					if !right {
 						// a wrong-size/wrong-type key can never yield the plaintext
 						t.Modelled(core.MustReject)
@@ -706,6 +721,8 @@ func c11StructOps(sp, other *samlgen.KeyPair) []c11Op {
 		{"noop", false, func(*etree.Element) bool { return false }},
 		{"cert-other-rsa", true, setCert(other.CertB64, true)},
 		{"cert-ec", true, setCert(ecCert, true)},
+		// certificates that share something with the right key without being its certificate: same modulus with another public exponent
+		{"cert-same-modulus-other-exponent", true, setCert(samlgen.Key("sp2048e3").CertB64, true)},
 		{"cert-garbage", false, setCert("bm90IGEgY2VydA==", false)},
 		{"cert-empty", false, setCert("", false)},
 		{"cert-not-base64", false, setCert("***", false)},
